@@ -51,15 +51,17 @@ func verifC12(c *drv.Ctx) {
 		bound   int
 		slowOut time.Duration // standard output blocks that long per write: results back up in the queues
 		stuck   bool          // the request generator blocks in a read for an hour after its last request (see vStuckGenerator)
+		pipe    bool          // targets through the real pair-list reader from a pipe whose first line comes after an hour (vPipeInput)
 	}
 	gscs := []gsc{
-		{"000000", 2, 0, false, 2, bound, 0, false},
-		{"053104", 2, 0, false, 2, bound, 0, false},
-		{"333300", 2, 0, true, 1, bound, 0, false},
-		{"005500", 3, 0, false, 1, 1, 0, false},
-		{"000000", 2, 1000, false, 2, 1, 0, false},
-		{"00000000", 4, 0, false, 1, 1, 5 * time.Millisecond, false},
-		{"0040", 2, 0, false, 2, 0, 0, true},
+		{"000000", 2, 0, false, 2, bound, 0, false, false},
+		{"053104", 2, 0, false, 2, bound, 0, false, false},
+		{"333300", 2, 0, true, 1, bound, 0, false, false},
+		{"005500", 3, 0, false, 1, 1, 0, false, false},
+		{"000000", 2, 1000, false, 2, 1, 0, false, false},
+		{"00000000", 4, 0, false, 1, 1, 5 * time.Millisecond, false, false},
+		{"0040", 2, 0, false, 2, 0, 0, true, false},
+		{"00", 2, 0, false, 2, 0, 0, false, true},
 	}
 	c.R.Rule = fmt.Sprintf("the REAL startScanEngine with (a) the real packet engine and (b) the real generic engine, request streams %v / %v (symbols: 0 ok, 1 request error, 2 build error, 3 write/probe error, 4 negative, 5 slow probe), "+
 		"scaled-down buffers (capTo) and slow consumers, one live-mode scenario; the cancellation event is injected at EVERY choice point (and every quiescent point) of EVERY schedule with at most d deviations (d as listed; quick 1, thorough 2); "+
@@ -126,8 +128,9 @@ func verifC12(c *drv.Ctx) {
 		st, cfg0, main := vGenericScenario(p, s.workers, 300*time.Millisecond, s.rate, true, s.slow, s.capTo)
 		slowOut := s.slowOut
 		stuck := s.stuck
-		cfg := func(sch *vs.Sched) { vSlowOutput = slowOut; vStuckGenerator = stuck; cfg0(sch) }
-		name := fmt.Sprintf("generic pattern=%s workers=%d rate=%d slow=%v cap=%d slow-output=%v stuck-generator=%v", s.pattern, s.workers, s.rate, s.slow, s.capTo, s.slowOut, s.stuck)
+		pipe := s.pipe
+		cfg := func(sch *vs.Sched) { vSlowOutput = slowOut; vStuckGenerator = stuck; vPipeInput = pipe; cfg0(sch) }
+		name := fmt.Sprintf("generic pattern=%s workers=%d rate=%d slow=%v cap=%d slow-output=%v stuck-generator=%v input-from-slow-pipe=%v", s.pattern, s.workers, s.rate, s.slow, s.capTo, s.slowOut, s.stuck, s.pipe)
 		check := func(x *vs.Exec) (string, error) {
 			if out, err := vBasic(x); err != nil {
 				return out, err
